@@ -42,6 +42,7 @@ func (c *Ctx) lrPass(seedSalt int64, n int, compare int, optsets []OptSet, inval
 	for i := 0; i < n; i++ {
 		gs = append(gs, genLRTail(rng, i%3 == 2))
 	}
+	gs = append(c08Strata()[1:], gs...)
 	c.runKnownF06b()
 	c.ModelCheck(&MCConfig{
 		Profile: pegProfile(), Grammars: gs, NGrammars: 0, LR: true,
